@@ -114,6 +114,11 @@ CHECKS = {
         ],
         "assumptions": [],
     },
+    "C13": {
+        "level": "exploration",
+        "units": [unit("c13-root", "root", ["zz_verif_c13_test.go", "zz_verif_c12_test.go", "zz_verif_c01_test.go"], "^TestVerifC13", shards={"quick": 12, "thorough": 16})],
+        "assumptions": [],
+    },
     "_FIX": {
         "level": "other",
         "units": [unit("genfix", "root", [], "^TestVerifGenFixtures$", env={"VERIF_GENFIX": "1"}, timeout=1800)],
